@@ -1,4 +1,5 @@
 import Ccp.Proofs.Mac
+import Ccp.Gen.Tables
 /-!
 # C16 — MAC and EUI-64 objects: every rendering denotes the same address
 
@@ -223,5 +224,89 @@ example : ["0123.45ab".toList, "1:23:45:ab:cd:ef".toList, "01-23-45:ab-cd-ef".to
       (fun s => (parseObj .mac s).toOption == none) = true := by decide
 example : (parseObj .eui64 "0123.45ab.cdef.0001".toList).toOption = some 0x012345abcdef0001 ∧
     (parseObj .eui64 "0123.45ab.cdef".toList).toOption = none := by decide
+
+/-! ## The templates are those of the installed package -/
+
+/-- **templates_as_modelled**: the templates, sizes and hex alphabet written in the model are
+those of the installed `macaddress` package (`Ccp.Gen.Tables` is regenerated from
+`macaddress.EUI48.formats` / `EUI64.formats` / `.size` / `_HEX_DIGITS` on every run). -/
+theorem templates_as_modelled :
+    Gen.macTemplates48.map String.toList = eui48.formats ∧
+    Gen.macTemplates64.map String.toList = eui64.formats ∧
+    Gen.macSize48 = eui48.size ∧ Gen.macSize64 = eui64.size ∧
+    Gen.macHexDigits.toList = hexDigits := by decide
+
+/-! ## `macaddress.parse(word, MAC, EUI64)` — the classification `MACEUISearch` (macgrep) uses -/
+
+/-- **classify_iff_parseObj**: a word is classified as kind `k` with value `v` exactly when the
+constructor of that kind (`MACObj` for 48 bits, `EUI64Obj` for 64 bits) accepts it with value `v`. -/
+theorem classify_iff_parseObj (w : Str) (k : Kind) (v : Nat) :
+    classify w = .ok (k, v) ↔ parseObj k w = .ok v := Mac.classify_iff_parseObj w k v
+
+/-- **classify_spec**: a word is classified as the 48-bit (64-bit) kind iff it instantiates one of
+that size's four templates, and the value is the number its hex digits spell … -/
+theorem classify_spec (w : Str) (k : Kind) (v : Nat) :
+    classify w = .ok (k, v) ↔ (∃ t ∈ k.cls.formats, tmatch t w = true) ∧ v = hexFold 0 w := by
+  rw [classify_iff_parseObj, accepted_iff]
+
+/-- … never both: no word is accepted by the constructors of both sizes (so the classification
+does not depend on the order of the classes in the call). -/
+theorem classify_exclusive (w : Str) (v v' : Nat) :
+    ¬ (parseObj .mac w = .ok v ∧ parseObj .eui64 w = .ok v') := by
+  rintro ⟨h1, h2⟩
+  have a := (classify_iff_parseObj w .mac v).mpr h1
+  have b := (classify_iff_parseObj w .eui64 v').mpr h2
+  rw [a] at b
+  cases b
+
+/-- **classify_rejects_iff**: a word is rejected (`ValueError`, `mac_retval = None`) exactly when
+it instantiates no template of either size, i.e. when both constructors reject it. -/
+theorem classify_rejects_iff (w : Str) :
+    classify w = .error .valueError ↔
+      (∀ k : Kind, ∀ t ∈ k.cls.formats, tmatch t w = false) := by
+  constructor
+  · intro h k
+    apply (rejected_iff k w).mp
+    cases hp : parseObj k w with
+    | error e => cases e; rfl
+    | ok v =>
+      have := (classify_iff_parseObj w k v).mpr hp
+      rw [this] at h; cases h
+  · intro h
+    cases hc : classify w with
+    | error e => cases e; rfl
+    | ok r =>
+      obtain ⟨k, v⟩ := r
+      have hp := (classify_iff_parseObj w k v).mp hc
+      rw [(rejected_iff k w).mpr (h k)] at hp
+      cases hp
+
+example : (classify "dead.beef.0001".toList).toOption = some (.mac, 0xdeadbeef0001) ∧
+    (classify "DE-AD-BE-EF-00-01-00-02".toList).toOption = some (.eui64, 0xdeadbeef00010002) ∧
+    (classify "dead.beef.001".toList).toOption = none := by decide
+
+/-! ## `==` across sizes and against plain `macaddress` objects -/
+
+/-- **eq_across_kinds**: `==` between any two objects — `MACObj`, `EUI64Obj`, plain
+`macaddress.EUI48` / `EUI64`, in either order — built from accepted texts is true exactly when
+they have the same size and the same address.  In particular a 48-bit and a 64-bit object with
+the same integer are never equal, and a wrapper equals the plain object of its own size with the
+same address (from either side). -/
+theorem eq_across_kinds (a b : Obj) (sa sb : Str)
+    (ha : parseObj a.kind sa = .ok a.value) (hb : parseObj b.kind sb = .ok b.value) :
+    objEq a b = true ↔ a.kind = b.kind ∧ a.value = b.value :=
+  objEq_iff a b (parseObj_lt _ sa _ ha) (parseObj_lt _ sb _ hb)
+
+/-- the same integer in the two sizes: unequal for every value and every combination of wrapper /
+plain objects, with no hypothesis on the value -/
+theorem same_integer_other_size_ne (v w : Nat) :
+    objEq (.wrapped .mac v) (.wrapped .eui64 w) = false ∧ objEq (.wrapped .eui64 v) (.wrapped .mac w) = false ∧
+    objEq (.wrapped .mac v) (.plain .eui64 w) = false ∧ objEq (.wrapped .eui64 v) (.plain .mac w) = false ∧
+    objEq (.plain .mac v) (.wrapped .eui64 w) = false ∧ objEq (.plain .eui64 v) (.wrapped .mac w) = false := by
+  simp [objEq]
+
+example : objEq (.wrapped .mac 0xff) (.plain .mac 0xff) = true ∧ objEq (.plain .mac 0xff) (.wrapped .mac 0xff) = true ∧
+    objEq (.wrapped .mac 0xff) (.wrapped .eui64 0xff) = false ∧ objEq (.plain .eui64 0xff) (.wrapped .eui64 0xfe) = false := by
+  decide
 
 end Ccp.C16
